@@ -2,7 +2,7 @@
    of tracing.trace_origin / fix_starred_imports / fix_reimported_names (tracing.py) and of the
    import-statement rules of fixes.py (remove_unused_imports, _fix_duplicate_from_imports,
    _fix_duplicate_regular_imports, _breakout_stacked_imports, _sort_import_statements,
-   _fix_imported_as_self_or_unsorted).  Models only; the proofs are in ImportsProofs.v.
+   _fix_imported_as_self_or_unsorted, _import_order_matters).  Models only; the proofs are in ImportsProofs.v.
 
    Names and module names are natural numbers from ONE id space: the harness sorts all strings of a
    case (identifiers and dotted module names) and gives the string of rank r the number
@@ -520,8 +520,26 @@ Definition breakout_stmt (s : stmt) : list stmt :=
   end.
 Definition breakout (l : list stmt) : list stmt := flat_map breakout_stmt l.
 
+(* ---- fixes._import_order_matters(nodes) (repairs cc67280 / 95f12ea): the names the aliases of the statements
+   bind -- `alias.asname or alias.name.split(".")[0]`, ONE count per alias -- hold "*" (a star import: the string
+   "*" is given the number 0 = STAR by the harness, it sorts before every identifier) or some name more than
+   once.  `import os.path` and `import os` both count for `os` (conservative).  The bound name of an alias is
+   fbound / ibound (for an import alias ibound is `asname or head` whenever the alias is one Python can write:
+   ibound_raw in ImportsProofs.v). *)
+Definition STAR : name := 0.
+
+Fixpoint has_dup (l : list nat) : bool :=
+  match l with
+  | [] => false
+  | x :: tl => mem x tl || has_dup tl
+  end.
+
+Definition bound_names (l : list stmt) : list name := map fst (all_binds l).
+Definition order_matters (l : list stmt) : bool := mem STAR (bound_names l) || has_dup (bound_names l).
+
 (* ---- _sort_import_statements on ONE run of consecutive import statements: stable sort by
-   _import_group_key (fixes.py:3805-3816); absolute imports only (level = 0, no __future__) *)
+   _import_group_key; absolute imports only (level = 0, no __future__).  A run whose order could matter
+   (order_matters) is left alone. *)
 Definition flat_key (ls : list (list nat)) : list nat :=
   flat_map (fun l => map S l ++ [0]) ls.       (* order-preserving encoding of a tuple of tuples *)
 
@@ -535,18 +553,29 @@ Definition stmt_key (s : stmt) : list nat :=
               sort_nat (map imod als);
               sort_nat (map (fun al => match ias al with Some a => a | None => imod al end) als)]
   end.
-Definition sort_stmts (l : list stmt) : list stmt :=
+(* the rule before cc67280: every run of two or more statements is sorted *)
+Definition old_sort_stmts (l : list stmt) : list stmt :=
   match l with
   | _ :: _ :: _ => sort_by stmt_key l
   | _ => l
   end.
+Definition sort_stmts (l : list stmt) : list stmt :=
+  match l with
+  | _ :: _ :: _ => if order_matters l then l else sort_by stmt_key l
+  | _ => l
+  end.
 
-(* ---- _fix_imported_as_self_or_unsorted: aliases of every statement normalised and sorted *)
-Definition sort_aliases_stmt (s : stmt) : stmt :=
+(* ---- _fix_imported_as_self_or_unsorted: aliases of every statement normalised and sorted, unless two aliases
+   of the statement bind one name (or it is a star import): `not _import_order_matters([node])` *)
+(* the rule before 95f12ea *)
+Definition old_sort_aliases_stmt (s : stmt) : stmt :=
   match s with
   | SFrom std m als => SFrom std m (sort_by fkey (map fnorm als))
   | SImport als => SImport (sort_by ikey (map inorm als))
   end.
+Definition old_sort_aliases (l : list stmt) : list stmt := map old_sort_aliases_stmt l.
+Definition sort_aliases_stmt (s : stmt) : stmt :=
+  if order_matters [s] then s else old_sort_aliases_stmt s.
 Definition sort_aliases (l : list stmt) : list stmt := map sort_aliases_stmt l.
 
 (* ------------------------------------------------------------------------------------------- *)
